@@ -50,7 +50,12 @@ func init() {
 		StopSetters:  1,
 		DupDAG:       true,
 	}
-	fw.Families["C11"] = func(k *fw.Case) { trace.RunCase(k, c11) }
+	fw.Families["C11"] = func(k *fw.Case) {
+		trace.RunCase(k, c11)
+		if k.Index%4 == 0 {
+			trace.SoloStatement(k)
+		}
+	}
 
 	c12 := &trace.Config{
 		Methods: []string{trace.MSel, trace.MSelCtl, trace.MSelCtlGiven, trace.MSelCtlStop, trace.MSelCtlStopGiven, trace.MSelConcurrent, trace.MSelMix,
